@@ -742,6 +742,13 @@ def check_c04(tier, seed, log=print):
                                                    what='str-mode definition accepted although one of its patterns can match invalid UTF-8 (utf8ClosedB failed with a complete search): '
                                                         'spans_on_boundaries no longer applies, the lexer can produce spans inside a code point'),
                           key='nonutf8fam|%s' % cse['src'])
+        elif c.verdict == 'ACCEPT' and not cse['meta']['closed']:
+            # the offending pattern is not a leaf (a subpattern nothing refers to, or one whose uses are valid UTF-8 as a whole):
+            # the family wrote it to match invalid UTF-8, the property asks for a rejection on the subpattern's own account
+            run.violation('nonutf8-accepted', dict(definition=cse['src'], family=cse['family'],
+                                                   what='str-mode definition accepted although one of its patterns or subpatterns (written by the family to match bytes that are not valid UTF-8) '
+                                                        'can match invalid UTF-8'),
+                          key='nonutf8fam|%s' % cse['src'])
         elif c.verdict != 'ACCEPT' and cse['meta']['closed']:
             run.violation('utf8-rejected', dict(definition=cse['src'], family=cse['family'], errors=c.errs[:2],
                                                 what='a str-mode definition whose byte-string patterns only match valid UTF-8 was rejected'),
